@@ -267,6 +267,9 @@ type RecFSM struct {
 	in    *Instance
 	State FSMState // guarded by W.Mu
 	Calls int
+	// BatchOlder[i] is set when entry i was handed over in one ApplyBatch call
+	// behind a command of an older term (guarded by W.Mu)
+	BatchOlder map[uint64]bool
 }
 
 func newRecFSM(in *Instance) *RecFSM { return &RecFSM{in: in} }
@@ -334,6 +337,16 @@ func (f *RecFSM) applyBatch(ls []*raft.Log) []interface{} {
 	for i, l := range ls {
 		out[i] = f.applyOne(l, "ApplyBatch")
 	}
+	f.in.W.Mu.Lock()
+	for i, l := range ls {
+		if i > 0 && l.Term > ls[0].Term && ls[0].Type == raft.LogCommand {
+			if f.BatchOlder == nil {
+				f.BatchOlder = map[uint64]bool{}
+			}
+			f.BatchOlder[l.Index] = true
+		}
+	}
+	f.in.W.Mu.Unlock()
 	return out
 }
 
